@@ -271,8 +271,12 @@ sexp sexp_thread_terminate (sexp ctx, sexp self, sexp_sint_t n, sexp thread) {
 #if SEXP_USE_VERIF_HOOKS
     sexp_verif_quiet++;
 #endif
-    if (sexp_delete_list(ctx, SEXP_G_THREADS_PAUSED, thread))
+    if (sexp_delete_list(ctx, SEXP_G_THREADS_PAUSED, thread)) {
+      /* it no longer waits for anything: a terminated thread still marked */
+      /* as waiting would be put back on the paused list by the scheduler */
+      sexp_context_waitp(thread) = sexp_context_timeoutp(thread) = 0;
       sexp_thread_start(ctx, self, 1, thread);
+    }
 #if SEXP_USE_VERIF_HOOKS
     sexp_verif_quiet--;
 #endif
